@@ -747,7 +747,8 @@ func runC01(c *Ctx) {
 				}
 				count := map[int64]int{}
 				removed := map[int64]bool{}
-				for _, in := range path.Instrs() {
+				instrs := path.Instrs()
+				for _, in := range instrs {
 					switch {
 					case isCallTo(in, delRead...):
 						removed[e.readEv] = true
@@ -774,13 +775,34 @@ func runC01(c *Ctx) {
 						if k == e.writeEv {
 							flag = writeFlag
 						}
-						tested := false
+						tested, stale := false, false
 						for _, l := range path.Lits {
 							if x, set, ok := bitTest(l.Lit, eventsF); ok && set {
 								if m, ok := valOf(ctx, x); ok && m == flag {
 									tested = true
+									// the mask tested was read after the last handler that ran on this path: a completion handler
+									// (the user's callback) may close or cancel the object and so change the registered interests
+									for _, ld := range eventsLoadsIn(l.Cond, eventsF, 0) {
+										li, hi := -1, -1
+										for i, x := range instrs {
+											if x == ssa.Instruction(ld) {
+												li = i
+											}
+											if x == in {
+												hi = i
+											}
+										}
+										for i := li + 1; li >= 0 && i < hi; i++ {
+											if cc, ok := instrs[i].(ssa.CallInstruction); ok && isDynamicFuncCall(cc) {
+												stale = true
+											}
+										}
+									}
 								}
 							}
+						}
+						if tested && stale {
+							bad, badPos = "a handler is completed under an interest mask that was read before an earlier handler (and the user's callback) ran", in.Pos()
 						}
 						if !tested {
 							bad, badPos = "a handler is completed on a path that did not test the interest bit of its own direction", in.Pos()
@@ -1356,3 +1378,27 @@ func foldsHangup(v ssa.Value, maskF *types.Var, hupErr, both int64) bool {
 }
 
 var _ = fmt.Sprintf
+
+// eventsLoadsIn collects the loads of field f that the condition v is computed from.
+func eventsLoadsIn(v ssa.Value, f *types.Var, depth int) []*ssa.UnOp {
+	if depth > 6 || v == nil {
+		return nil
+	}
+	v = stripConv(v)
+	switch x := v.(type) {
+	case *ssa.UnOp:
+		if x.Op == token.MUL && loadOfField(x, f) {
+			return []*ssa.UnOp{x}
+		}
+		return eventsLoadsIn(x.X, f, depth+1)
+	case *ssa.BinOp:
+		return append(eventsLoadsIn(x.X, f, depth+1), eventsLoadsIn(x.Y, f, depth+1)...)
+	case *ssa.Call:
+		var out []*ssa.UnOp
+		for _, a := range x.Call.Args {
+			out = append(out, eventsLoadsIn(a, f, depth+1)...)
+		}
+		return out
+	}
+	return nil
+}
